@@ -88,3 +88,96 @@ def corr_sg_perm(rng, drv, n_cases=30) -> Result:
             if tp[perm].tolist() != drv.ask({"op": "compose_out", "tp": tp.tolist(), "perm": perm.tolist()}):
                 res.fail("composition trans_perms[l][perm] differs", input=req)
     return res
+
+
+def _grid_group(rng):
+    """a small space group on the grid 1/8: translation subgroup T, point operations P preserving T, atoms = orbits of
+    1-2 seed points; the operation list is P x T (shuffled, integer offsets added), sometimes damaged on purpose"""
+    I = np.eye(3, dtype=int)
+    gens = rng.choice([[[4, 0, 0]], [[4, 0, 0], [0, 4, 0]], [[4, 4, 0]], [[2, 0, 0]], [[4, 4, 4]], []])
+    T = {(0, 0, 0)}
+    changed = True
+    while changed:
+        changed = False
+        for t in list(T):
+            for g in gens:
+                u = tuple((a + b) % 8 for a, b in zip(t, g))
+                if u not in T:
+                    T.add(u)
+                    changed = True
+    T = sorted(T)
+    P = rng.choice([[I], [I, -I], [I, np.array([[0, 1, 0], [1, 0, 0], [0, 0, 1]])], [I, np.diag([1, -1, 1])],
+                    [I, -I, np.diag([1, 1, -1]), np.diag([-1, -1, 1])],
+                    [I, np.array([[0, 1, 0], [0, 0, 1], [1, 0, 0]]), np.array([[0, 0, 1], [1, 0, 0], [0, 1, 0]])]])
+    P = [R for R in P if all(tuple(int(v) % 8 for v in (R @ np.array(t))) in set(T) for t in T)]
+    seeds = [[rng.randint(0, 7) for _ in range(3)] for _ in range(rng.randint(1, 2))]
+    atoms = set()
+    for s in seeds:
+        for R in P:
+            for t in T:
+                atoms.add(tuple(int(v) % 8 for v in (R @ np.array(s) + np.array(t))))
+    atoms = sorted(atoms)
+    ps = [[a + 8 * rng.randint(-1, 1) for a in at] for at in atoms]
+    rng.shuffle(ps)
+    ops = [(R, [int(v) + 8 * rng.randint(-1, 1) for v in t]) for R in P for t in T]
+    rng.shuffle(ops)
+    damage = "none"
+    c = rng.random()
+    if c < 0.12 and len(ops) > 1:
+        ops.pop(rng.randrange(len(ops)))
+        damage = "operation_missing"
+    elif c < 0.24:
+        ops.append(rng.choice(ops))
+        damage = "operation_repeated"
+    elif c < 0.32:
+        k = rng.randrange(len(ops))
+        ops[k] = (ops[k][0], [v + rng.choice([0, 0, 1]) for v in ops[k][1]])
+        damage = "translation_perturbed"
+    return ps, ops, damage
+
+
+def corr_sg_full(rng, drv, n_cases=40) -> Result:
+    """the WHOLE of compute_sg_permutations on grid structures with genuine (and deliberately damaged) operation
+    lists vs Model/SgPermFull.lean `sgPermutations` (theorems `sg_permutations_represent_every_operation`,
+    `sg_permutations_compose_like_the_operations`): the (n_ops, N) table, or 'no well-formed table' on both sides"""
+    from symfc.utils.utils import compute_sg_permutations
+    res = Result("sg_permutations_full", "correspondence")
+    with Timer(res):
+        k = 0
+        while k < n_cases:
+            ps, ops, damage = _grid_group(rng)
+            if len(ps) > 12 or len(ops) > 32:
+                continue
+            k += 1
+            rots = [R.tolist() for R, _ in ops]
+            trans = [t for _, t in ops]
+            req = {"op": "sg_permutations", "S": 8, "positions": ps, "rotations": rots, "translations": trans}
+            m = drv.ask(req)
+            nprng = np.random.default_rng(rng.getrandbits(32))
+            lattice = np.diag([4.0, 5.0, 6.0]) if any(abs(np.array(r)).sum() != 3 or True for r in rots) else None
+            # an orthorhombic metric with unequal axes is not invariant under axis permutations, but the matching only
+            # asks for distance < symprec, which is exact (0) on the grid whatever the metric
+            try:
+                o = compute_sg_permutations(np.array(ps, dtype=float).reshape(-1, 3) / 8.0,
+                                            np.array(rots, dtype=int).reshape(-1, 3, 3),
+                                            np.array(trans, dtype=float).reshape(-1, 3) / 8.0, lattice)
+                real = o.tolist() if (o.ndim == 2 and o.shape == (len(trans), len(ps)) and o.dtype.kind == "i") else None
+            except Exception:  # noqa  (AssertionError, IndexError, ValueError, RuntimeError: "no well-formed table")
+                real = None
+            res.case(req, len(ps) >= 2 and len(ops) >= 2,
+                     sample={"positions_eighths": ps, "n_ops": len(ops), "damage": damage})
+            res.count(f"N{len(ps)}")
+            res.count(f"ops{len(ops)}")
+            res.count("damage_" + damage)
+            res.count("table" if real is not None else "no_table")
+            if m != real:
+                res.fail("compute_sg_permutations differs from the model", input=req, impl=real, model=m)
+            elif real is not None and damage == "none":
+                # the theorem's conclusion, observed: atom a goes to the atom at R x_a + t (mod 1)
+                P = np.array(ps)
+                for (R, t), row in zip(ops, real):
+                    img = (P @ np.array(R).T + np.array(t)) % 8
+                    if not np.array_equal(P[np.array(row)] % 8, img):
+                        res.fail("a row does not represent its operation", input=req, impl=row)
+                        break
+    return res
